@@ -143,7 +143,7 @@ func emit(t *rt.Trace, sc scen, a *attempt, o *outcome, attemptNo int) {
 	tp := a.topo()
 	// (all keys sort after "ev": verifylib cuts traces at lines that START with {"ev":"Reset")
 	t.Reset(rt.M{"pipe": sc.Pipe, "topo": tp, "stopApi": sc.Stop, "kind": apiKind(sc.Stop), "stall": sc.Stall, "release": sc.Release,
-		"fail": sc.Fail, "n": sc.N, "racing": sc.Racing, "slots": 1000, "try": attemptNo, "waiters": sc.Waiters,
+		"fail": sc.Fail, "n": sc.N, "racing": sc.Racing, "slots": 1000, "try": attemptNo, "waiters": sc.Waiters, "overflow": sc.Overflow,
 		"stallKind": a.stallKind, "stallNode": a.stallNode})
 	var first, racing []int
 	for _, s := range o.Accepted {
@@ -153,7 +153,21 @@ func emit(t *rt.Trace, sc scen, a *attempt, o *outcome, attemptNo int) {
 			racing = append(racing, s)
 		}
 	}
-	t.Event("Accept", rt.M{"seqs": rangesAny(first)})
+	if sc.Overflow && apiKind(sc.Stop) == "task" {
+		// collected into the task's edge before the stop was requested = the task's; the acknowledged rest was
+		// still on the ingest side: StopTask stops feeding the task, it may or may not get the next ones
+		var certain, maybe []int
+		for _, s := range first {
+			if s <= o.Certain {
+				certain = append(certain, s)
+			} else {
+				maybe = append(maybe, s)
+			}
+		}
+		t.Event("Accept", rt.M{"seqs": rangesAny(certain), "maybe": rangesAny(maybe)})
+	} else {
+		t.Event("Accept", rt.M{"seqs": rangesAny(first)})
+	}
 	injected := sc.Fail != ""
 	failedBefore := injected && sc.Release == "before"
 	if failedBefore {
@@ -214,7 +228,12 @@ func emit(t *rt.Trace, sc scen, a *attempt, o *outcome, attemptNo int) {
 	} else {
 		t.Event("StopHung", rt.M{"delivered": deliveredAny(at)})
 	}
-	t.Event("End", rt.M{"final": deliveredAny(o.Final)})
+	end := rt.M{"final": deliveredAny(o.Final)}
+	if sc.Overflow && (o.Returned || o.Panicked != "") {
+		end["neighbour"] = rangesAny(o.Neighbor) // the task next door was offered the same points and never stopped before the end
+		end["acked"] = rangesAny(o.Accepted)
+	}
+	t.Event("End", end)
 }
 
 type counters struct {
@@ -238,6 +257,9 @@ func lost(sc scen, a *attempt, o *outcome) bool {
 		}
 		missing := 0
 		for _, s := range o.Accepted {
+			if sc.Overflow && apiKind(sc.Stop) == "task" && s > o.Certain {
+				continue
+			}
 			if !got[s] {
 				missing++
 			}
@@ -311,7 +333,7 @@ func Run(r *rt.Run) error {
 			return fmt.Errorf("more than 20 process crashes, giving up (last: %s)", sc.key())
 		}
 		crashT.Reset(rt.M{"pipe": sc.Pipe, "stopApi": sc.Stop, "kind": apiKind(sc.Stop), "stall": sc.Stall, "release": sc.Release,
-			"fail": sc.Fail, "n": sc.N, "racing": sc.Racing, "slots": 1000, "try": att, "waiters": 0, "stallKind": "", "stallNode": "",
+			"fail": sc.Fail, "n": sc.N, "racing": sc.Racing, "slots": 1000, "try": att, "waiters": 0, "overflow": sc.Overflow, "stallKind": "", "stallNode": "",
 			"topo": rt.M{"kinds": []any{"pass"}, "edges": []any{rt.M{"from": 0, "to": 1, "f": "all"}}, "outf": []any{"none"},
 				"outs": rt.M{}, "nodes": []any{"?"}}})
 		crashT.Event("StopCall", rt.M{"api": sc.Stop})
@@ -484,7 +506,7 @@ func runChild(r *rt.Run) error {
 				_ = os.WriteFile(filepath.Join(filepath.Dir(r.OutDir), name), []byte(o.HungDump+o.LeakDump+o.WaiterDump), 0o644)
 			}
 		}
-		if sc.Stall != "" || sc.Fail != "" || sc.Racing > 0 || sc.Waiters > 0 || strings.HasPrefix(sc.Stop, "TS") {
+		if sc.Stall != "" || sc.Fail != "" || sc.Racing > 0 || sc.Waiters > 0 || sc.Overflow || strings.HasPrefix(sc.Stop, "TS") {
 			t.Distinct(sc.key()) // non-trivial: a backlog is held somewhere, a node fails, or a writer races with the stop
 		}
 	}
@@ -549,6 +571,9 @@ func Probe(r *rt.Run) error {
 	if len(a) > 8 {
 		fmt.Sscan(a[8], &sc.Waiters)
 	}
+	if len(a) > 9 && a[9] == "overflow" {
+		sc.Overflow = true
+	}
 	t := r.NewTrace("probe")
 	for i := 0; i < att; i++ {
 		t0 := time.Now()
@@ -562,7 +587,7 @@ func Probe(r *rt.Run) error {
 		for k, v := range o.AtReturn {
 			fmt.Printf("   out %s: atReturn=%d %v final=%d dup=%d\n", k, len(v), trunc(ranges(v)), len(o.Final[k]), dupCount(o.Final[k]))
 		}
-		fmt.Printf("   leaked=%v refused=%v waitersBack=%v waiterErrs=%q errors=%v\n", o.Leaked, o.Refused, o.WaiterBack, o.WaiterErr, o.Errors)
+		fmt.Printf("   leaked=%v refused=%v waitersBack=%v waiterErrs=%q certain=%d neighbour=%d errors=%v\n", o.Leaked, o.Refused, o.WaiterBack, o.WaiterErr, o.Certain, len(o.Neighbor), o.Errors)
 		if o.LeakDump != "" && i == 0 {
 			fmt.Println(o.LeakDump)
 		}
